@@ -85,10 +85,14 @@ pub struct PendCtl {
     pub on: AtomicBool,
     pub plan: std::sync::Mutex<Vec<usize>>, // pendings to inject at the i-th await point
     pub next: AtomicUsize,
+    /// fault injection for the walk stream: the k-th metadata call (1-based, while `on`) fails
+    pub fail_metadata_at: AtomicUsize,
+    pub metadata_calls: AtomicUsize,
 }
 impl PendCtl {
     pub fn new() -> Arc<PendCtl> {
-        Arc::new(PendCtl { on: AtomicBool::new(false), plan: std::sync::Mutex::new(vec![]), next: AtomicUsize::new(0) })
+        Arc::new(PendCtl { on: AtomicBool::new(false), plan: std::sync::Mutex::new(vec![]), next: AtomicUsize::new(0),
+                           fail_metadata_at: AtomicUsize::new(0), metadata_calls: AtomicUsize::new(0) })
     }
     fn take(&self) -> usize {
         if !self.on.load(Ordering::SeqCst) {
@@ -173,6 +177,12 @@ impl AsyncFileSystem for PendingFS {
     }
     async fn metadata(&self, path: &str) -> VfsResult<VfsMetadata> {
         PendN(self.ctl.take()).await;
+        if self.ctl.on.load(Ordering::SeqCst) {
+            let n = self.ctl.metadata_calls.fetch_add(1, Ordering::SeqCst) + 1;
+            if n == self.ctl.fail_metadata_at.load(Ordering::SeqCst) {
+                return Err(VfsErrorKind::IoError(std::io::Error::new(std::io::ErrorKind::Other, "injected fault")).into());
+            }
+        }
         self.inner.metadata(path).await
     }
     async fn set_creation_time(&self, path: &str, time: SystemTime) -> VfsResult<()> {
